@@ -198,8 +198,8 @@ def p_C17(res, facts, tier):
     from .rules import panic, dds
     panic.check_panics(res, facts)
     # liveness of the timed envelope phases (increment >= 1, roll-over detection sound)
-    dds.check_tick(res, facts, 'C02')
-    dds.check_pa_methods(res, facts, dds.LFO, 'C11')
+    dds.check_tick(res, facts, 'C17')
+    dds.check_pa_methods(res, facts, dds.LFO, 'C17')
 
 
 def p_C20(res, facts, tier):
@@ -293,15 +293,37 @@ def run_control(res, prop, spec, tier):
         res.extra['control'] = 'none'
         return
     out = _apply_and_analyse(prop, spec, patch)
-    if out[0] == 'skipped':
+    tried = [('controls/%s.diff' % prop, out)]
+    if out[0] == 'skipped' or not out[1]:
+        # The primary control does not apply to this tree, or the tree itself neutralises it (a change elsewhere can make
+        # the control harmless: e.g. a floor on the increment makes "longer maximum time" safe).  Before declaring the rule
+        # set blind, fall back to stored seeded changes of this property (different sites): blind = none of up to three
+        # applicable known-bad changes is reported.
+        sdir = os.path.join(VERIF, 'seeded')
+        names = sorted((n for n in os.listdir(sdir) if n.startswith(prop + '_')), key=lambda n: int(n.rsplit('_', 1)[1])) if os.path.isdir(sdir) else []
+        ran = 0
+        for name in names:
+            if ran >= 3:
+                break
+            o2 = _apply_and_analyse(prop, spec, os.path.join(sdir, name, 'patch.diff'))
+            if o2[0] == 'skipped':
+                continue
+            ran += 1
+            tried.append(('seeded/%s/patch.diff' % name, o2))
+            if o2[1]:
+                break
+    ran_ = [(n, o) for n, o in tried if o[0] == 'ran']
+    if not ran_:
         res.extra['control'] = 'skipped: ' + out[1]
     else:
-        fired = out[1]
-        res.extra['control'] = {'patch': 'controls/%s.diff' % prop, 'violations_reported_on_control': len(fired),
-                                'first': fired[0].to_json() if fired else None, 'facts_key': out[2]}
-        res.ob('CONTROL', 'rules fire on the known-bad twin (controls/%s.diff)' % prop, bool(fired),
+        name, o = next(((n, o) for n, o in ran_ if o[1]), ran_[0])
+        fired = o[1]
+        res.extra['control'] = {'patch': name, 'violations_reported_on_control': len(fired),
+                                'first': fired[0].to_json() if fired else None, 'facts_key': o[2],
+                                'controls_tried': [n for n, _ in tried]}
+        res.ob('CONTROL', 'rules fire on a known-bad twin (%s)' % name, bool(fired),
                ('%d violation(s) reported on the control, first: %s' % (len(fired), fired[0].instance[:120])) if fired else
-               'the positive control was NOT reported: the rule set for %s has gone blind' % prop, key='CONTROL:' + prop, nontrivial=False)
+               'no positive control was reported (%s): the rule set for %s has gone blind' % (', '.join(n for n, _ in ran_), prop), key='CONTROL:' + prop, nontrivial=False)
     if tier != 'thorough':
         return
     replay = {}
